@@ -65,7 +65,7 @@ S0 == [g |-> G0, c |-> C0, r |-> R0, act |-> 0, scr |-> <<>>, on |-> FALSE]
 Checks18(m, g, c, e, a0, a1) ==
   LET att   == e.k = "attach"
       badc  == (a0 = 1 \/ a1 = 1) /\ \E i \in 1..Len(e.calls) : ~CallInGrid(g, e.calls[i])
-      cmp   == a1 = 1 /\ e.res = "ok" /\ e.cp = 1
+      cmp   == a1 = 1 /\ e.res = "ok" /\ e.cp = 1 /\ ~att     \* (the statement speaks of writes and of activation)
       sized == cmp /\ Len(e.data) >= (e.vy + g.h) * g.w /\ Len(e.scr) = g.w * g.h
       v     == Viewport(g, e.data, e.vy)
       bads  == sized /\ \E i \in 1..(g.w * g.h) : e.scr[i] # Canon(c, v[i])
@@ -93,12 +93,16 @@ Checks18(m, g, c, e, a0, a1) ==
 \* one monitor step: [s |-> next monitor state, cs |-> checks]
 Mon(m, e) ==
   IF e.k = "reset" THEN [s |-> S0, cs |-> <<>>]
+  ELSE IF e.k = "st" /\ m.g = G0
+       \* SetState on a terminal that is not attached yet (nothing to observe): only the commanded state
+       \* changes; AttachTo does not change it either
+       THEN [s |-> [m EXCEPT !.act = e.a], cs |-> <<>>]
   ELSE IF e.k # "attach" /\ ~m.on THEN [s |-> m, cs |-> << <<"C17", TRUE, <<"event before attach", e.k>> >> >>]
   ELSE
   LET g  == IF e.k = "attach" THEN GeomOf(e) ELSE m.g
       c  == IF e.k = "attach" THEN [kind |-> e.cons, gc |-> e.gc, gi |-> e.gi] ELSE m.c
       r2 == RefAfter(g, m.r, e)
-      a0 == IF e.k = "attach" THEN 0 ELSE m.act
+      a0 == m.act
       a1 == IF e.k = "st" THEN e.a ELSE a0
       scr2 == IF e.cp = 1 THEN e.scr ELSE IF a0 = 0 /\ a1 = 0 THEN m.scr ELSE <<>>
   IN [s  |-> [g |-> g, c |-> c, r |-> r2, act |-> a1, scr |-> scr2, on |-> e.res = "ok"],
